@@ -102,4 +102,18 @@ NdTerms == IF Tier = 1 THEN {"lf", "crlf"} ELSE {"lf", "crlf", "mixed"}
 NdStreams == {[mode |-> "ndjson", bytes |-> Encode(Render(rs, t, cutLast))] : rs \in RecSeqs, t \in NdTerms, cutLast \in BOOLEAN}
 
 Family == SseStreams \cup NdStreams
+
+\* ---- pairs of streams consumed in one process (StreamPair.tla): events of >= 2 lines, LF and CRLF, a
+\*      multi-byte character, an unterminated last event, id:/event: fields, NDJSON next to SSE
+Sse(bs, t, e) == [mode |-> "sse", bytes |-> Encode(SseText(bs, t, e))]
+Nd(rs, t, cutLast) == [mode |-> "ndjson", bytes |-> Encode(Render(rs, t, cutLast))]
+PA1 == Sse(<< <<D(P_x), D(P_e)>> >>, "lf", "blank")                          \* data: x / data: é
+PA2 == Sse(<< <<E, D(P_x)>>, <<Dn(P_e)>> >>, "crlf", "cut")                  \* event: e / data: x // data:é (open)
+PB1 == Sse(<< <<I, Dn(P_x)>> >>, "lf", "blank")                              \* id: 7 / data:x
+PB2 == Sse(<< <<C, D(P_e)>>, <<Dn(P_x)>> >>, "lf", "noblank")                \* : c / data: é // data:x (no blank line)
+PN1 == Nd(<<J_obj, J_arr>>, "lf", FALSE)
+PN2 == Nd(<<J_str, J_one>>, "crlf", TRUE)
+PairFamily ==
+  {[a |-> PA1, b |-> PB1], [a |-> PA1, b |-> PA1], [a |-> PA2, b |-> PB1], [a |-> PN1, b |-> PN2], [a |-> PA1, b |-> PN2]}
+  \cup (IF Tier = 1 THEN {} ELSE {[a |-> PB2, b |-> PA2], [a |-> PA2, b |-> PB2], [a |-> PN2, b |-> PA1], [a |-> PB1, b |-> PA1]})
 =============================================================================
